@@ -42,10 +42,9 @@ Next == \E t \in Threads : NodeNewAtomic(t) \/ Load(t) \/ Store(t) \/ LocalStep(
 Spec == Init /\ [][Next]_vars
 
 AllIds == UNION {{ids[t][i] : i \in 1..Len(ids[t])} : t \in Threads}
-Count  == LET RECURSIVE Sum(_)
-              Sum(S) == IF S = {} THEN 0 ELSE LET x == CHOOSE y \in S : TRUE IN Len(ids[x]) + Sum(S \ {x})
-          IN Sum(Threads)
-UniqueIds == Cardinality(AllIds) = Count
+\* no id is handed out twice (proved for any T and K in PushConcProof.tla)
+UniqueIds == \A t, u \in Threads : \A i \in 1..Len(ids[t]) : \A j \in 1..Len(ids[u]) :
+                (t # u \/ i # j) => ids[t][i] # ids[u][j]
 IncreasingPerThread == \A t \in Threads : \A i \in 1..(Len(ids[t]) - 1) : ids[t][i] < ids[t][i + 1]
 NonInterference == [][\A t \in Threads : local'[t] # local[t] => \A u \in Threads \ {t} : local'[u] = local[u]]_vars
 =============================================================================
